@@ -100,6 +100,12 @@ for _init, _read, _write, _want in _SLOT:
                    "why": "the same, return from nested blocks, the result used as a list element"})
     EXPECT.append({"src": "%s\nfunc f() { defer func() { %s }(); return %s, 2 }\nx, y = f()\nx" % (_init, _write, _read), "field": "result", "want": _want,
                    "why": "the same with a return list"})
+    EXPECT.append({"src": "%s\nfunc f() { defer func() { %s }(); %s }\nf()" % (_init, _write, _read), "field": "result", "want": _want,
+                   "why": "the same when the result is the value of the function's last statement (no return statement)"})
+    EXPECT.append({"src": "%s\nfunc f() { defer func() { %s }(); if true { %s } }\nx = f()\nx" % (_init, _write, _read), "field": "result", "want": _want,
+                   "why": "the same, the last statement nested in a block"})
+    EXPECT.append({"src": "%s\ndefer func() { %s }()\n%s" % (_init, _write, _read), "field": "result", "want": _want,
+                   "why": "the same at top level: the value handed to the host is the value of the last statement, whatever a deferred call does afterwards"})
 
 
 def run(tier, seed, replay=None):
